@@ -183,7 +183,7 @@ def bounded(tier, seed):
 		n_cases += 1
 		if len(sample) < 2 and n_cases % 50 == 3:
 			sample.append({'case': c, 'result': r})
-		if not r['ok']:
+		if not r.get('ok'):
 			failures.append({'case': c, 'expected': r['expected'], 'actual': r['actual'], 'class': 'order'})
 	for n in range(0, nmax + 1):
 		for perm in itertools.permutations(range(n)):
